@@ -62,6 +62,12 @@ def programs(tier, rnd):
     three = [(['R-'], ['L'], ['F1']), (['L'], ['L'], ['F1']), (['L'], ['F1'], ['F1']), (['L'], ['L'], ['L'])]
     for r0 in (0, 1):
         for pr in three: P.append((r0, list(pr), 20 if tier == 'quick' else 5000))
+    # the smallest racing programs in the other three numbering cells (inode_file_handles x use_host_ino): the refcount
+    # protocol is the same, the number a file keeps while its mapping is remembered comes from different tables
+    for cell in ((1, 0), (0, 1), (1, 1)):
+        for r0 in (1, 0):
+            for a, b in [(['L'], ['F1']), (['L'], ['L']), (['R-'], ['F1']), (['F1', 'L'], ['L'])]:
+                P.append((r0, [a, b], 60 if tier == 'quick' else 5000, cell))
     if tier != 'quick':
         for r0 in (0, 1, 2):
             P.append((r0, [['L', 'F1', 'L'], ['F1', 'L'], ['L', 'F2']], 100000))
@@ -107,6 +113,9 @@ def judge(r):
         for o, v in zip(pr[t], res):
             if o in ('L', 'R+', 'R-') and v != r['ino']:
                 return '%s in thread %d returned %d, the file has number %d' % ('lookup' if o == 'L' else 'readdirplus entry', t, v, r['ino'])
+    for v in r.get('pre', []):
+        if v != r['ino']:
+            return 'a lookup before the run returned %d, the file had number %d before it was forgotten (a file keeps its number while the mapping is remembered)' % (v, r['ino'])
     if [len(x) for x in r['results']] != [len(p) for p in pr]: return 'not every operation completed'
     outs = seq_outcomes(r0, pr)
     if final not in outs:
@@ -129,8 +138,9 @@ def explore(bindir, d, progs, rnd, nrandom, budget_s, tag):
     -> runs, stats, findings, broken"""
     from concurrent.futures import ThreadPoolExecutor
     jobs = []
-    for k, (r0, pr, mx) in enumerate(progs):
-        txt = 'r0 %d\n' % r0 + ''.join('thread %s\n' % ' '.join(p) for p in pr)
+    for k, pe in enumerate(progs):
+        r0, pr, mx = pe[:3]; cell = pe[3] if len(pe) > 3 else (0, 0)
+        txt = 'cfg %d %d\nr0 %d\n' % (cell[0], cell[1], r0) + ''.join('thread %s\n' % ' '.join(p) for p in pr)
         pc = post_count(r0, pr)
         if pc: txt += 'post %d\n' % pc
         txt += 'dfs %d %d\n' % (mx, budget_s)
@@ -203,14 +213,14 @@ def run_check(tier, seed):
     ev.cov['exploration'] = stats
     exprs = []; shapes = set(); samples = []; n_sched = len(runs)
     def finding_of(r, bad):
-        return {'what': bad, 'input': {'r0': r['r0'], 'threads': r['progs'], 'schedule': r['sched']},
-                'observed': {k: r.get(k) for k in ('trace', 'results', 'rc', 'getattr', 'ninodes', 'post', 'rc2', 'getattr2')},
+        return {'what': bad, 'input': {'cell (inode_file_handles, use_host_ino)': r.get('cell', [0, 0]), 'r0': r['r0'], 'threads': r['progs'], 'schedule': r['sched']},
+                'observed': {k: r.get(k) for k in ('pre', 'ino', 'trace', 'results', 'rc', 'getattr', 'ninodes', 'post', 'rc2', 'getattr2')},
                 'sig': {'check': 'concurrent', 'threads': len(r['progs'])}}
     for r in runs:
         pr = r['progs']; r0 = r['r0']; final = max(r['rc'], 0)
         bad = judge(r)
         if bad: findings.append(finding_of(r, bad))
-        shapes.add((r0, json.dumps(pr), tuple(r['trace'])))
+        shapes.add((tuple(r.get('cell', [0, 0])), r0, json.dumps(pr), tuple(r['trace'])))
         if len(samples) < 3: samples.append(r)
         exprs.append('check_sched %d [%s] %s %s %d %s' % (r0, '; '.join(coq_prog(p) for p in pr), coq_nats(r['sched']), coq_ns(r['trace']), final, coq_ns(r['dones'])))
     if audit['ok'] and exprs:
